@@ -39,7 +39,6 @@ TraceSpec == TraceInit /\ [][TraceNext]_tvars
 \* TLC evaluates the CONSTRAINT on a successor BEFORE the ACTION_CONSTRAINT: the high-water mark is therefore advanced at
 \* the end of the action constraint, after every check on the step has passed.
 Mark == CheckInv("BufBounded", BufBounded)
-HWMarkA == LET h == TLCGet(1) IN IF l' > h[tr'] THEN TLCSet(1, [h EXCEPT ![tr'] = l']) ELSE TRUE
 \* a violating step is pruned and the name of the first violated property recorded
 ActOK == /\ CheckInv("RejectedUntouched", RejectedUntouchedA)
          /\ CheckInv("AcceptedEnqueued", AcceptedEnqueuedA /\ OnlyRecvEnqueuesA)
